@@ -1126,14 +1126,15 @@ impl ActiveFile {
 fn dir_prefix_ext(file_set: impl AsRef<Path>) -> Result<(String, String, String), Error> {
     let file_set = file_set.as_ref();
 
-    let dir = if let Some(parent) = file_set.parent() {
-        parent
+    // A path with no directory part (like `app.log`) has an empty parent, which can't be listed or synced
+    // Use the current directory in that case
+    let dir = match file_set.parent() {
+        Some(parent) if !parent.as_os_str().is_empty() => parent
             .to_str()
             .ok_or_else(|| "paths must be valid UTF8")
             .map_err(Error::new)?
-            .to_owned()
-    } else {
-        String::new()
+            .to_owned(),
+        _ => String::from("."),
     };
 
     let prefix = file_set
